@@ -128,11 +128,17 @@ def SUBSTITUTE(text, old_text, new_text, instance_num=DEFAULT):
 def TEXTJOIN(delimiter, ignore_empty, *args):
     if not isinstance(delimiter, string_types):
         return error.VALUE
-    if ignore_empty:
-        gen = (words for words in utils.iflatten(args) if words is not None)
-    else:
-        gen = (words if words is not None else '' for words in utils.iflatten(args))
-    return delimiter.join(gen)
+    items = []
+    for item in utils.iflatten(args):
+        if isinstance(item, error.XLError):
+            return error.from_message(item)
+        if item is None:
+            if ignore_empty:
+                continue
+            item = ''
+        # an item that is not text joins as CONCATENATE writes it
+        items.append(item if isinstance(item, string_types) else str(item))
+    return delimiter.join(items)
 
 
 @dispatcher.register_for('LEFT', 'LEFTB')
